@@ -691,3 +691,67 @@ func TestC14WebTransportShortDatagram(t *testing.T) {
 	meta := vrun.Meta{Property: "C14", Workload: "TestC14WebTransportShortDatagram", Total: e.Pick(8, 12), Exhaustive: true, Rule: "WebTransport. " + ruleShort, Assumptions: assumeTransport}
 	vrun.Loop(t, meta, 1, func(c *vrun.Case) vrun.Result { return runShort(c, newWebTransportPair, "webtransport") })
 }
+
+// ---------------------------------------------------------------------------------------------------------------------
+// Slow segments: a peer whose segments of one message arrive seconds apart (congested path). A transport built from the
+// default configuration keeps an incomplete message for its default expiry (10 s), so gaps of 1-3 s must not cost it.
+
+const ruleSlow = "Case = gap between the first and the remaining segments of a hand-segmented 3-segment message (1.3 s / 2.6 s, i.e. across one / two sweeps of the 1 s expiry sweeper) x order (in order / last segment first). " +
+	"Fresh loopback connection whose transports are built from the default configuration (no expiry configured); the raw datagram primitive sends the segments with the gap, then end markers go through the library sender. " +
+	"Judged: the message is handed up exactly once, intact. Non-trivial: every completed case; distinct: (gap, order)."
+
+func runSlowSegments(c *vrun.Case, mk func(bool) (*pair, error), kind string) vrun.Result {
+	gap := []time.Duration{1300 * time.Millisecond, 2600 * time.Millisecond}[c.Index%2]
+	lastFirst := (c.Index/2)%2 == 1
+	p, err := mk(false)
+	if err != nil {
+		return vrun.Inconcl("cannot build the loopback pair: " + err.Error())
+	}
+	defer p.close()
+	ch := startReader(p)
+	l := newLedger()
+	if why := drainUntilMarker(p, ch, l, fmt.Sprintf("%d-pre", c.Seed)); why != "" {
+		return vrun.Inconcl(kind + ": path not working before the slow message: " + why)
+	}
+	parts := [][]byte{uniqueMsg(c.Rng, 300), uniqueMsg(c.Rng, 300), uniqueMsg(c.Rng, 120)}
+	whole := append(append(append([]byte(nil), parts[0]...), parts[1]...), parts[2]...)
+	l.sent[string(whole)]++
+	seq := 0x80000000 | uint32(c.Rng.Intn(1<<20))
+	order := []int{0, 1, 2}
+	if lastFirst {
+		order = []int{2, 0, 1}
+	}
+	for k, idx := range order {
+		if err := p.rawSend(hdr(seq, 2, uint16(idx), parts[idx])); err != nil {
+			return vrun.Inconcl(fmt.Sprintf("%s: the raw peer could not send segment %d: %v", kind, idx, err))
+		}
+		if k == 0 {
+			time.Sleep(gap)
+		}
+	}
+	why := drainUntilMarker(p, ch, l, fmt.Sprintf("%d-post", c.Seed))
+	ctx := map[string]any{"transport": kind, "gap": gap.String(), "last_segment_first": lastFirst}
+	if v := l.judge(kind, ctx); v != nil {
+		v.FindingKey += ":slow-segments"
+		return *v
+	}
+	if why != "" {
+		return vrun.Inconcl(kind + ": no end marker delivered after the slow message (" + why + ")")
+	}
+	res := vrun.Hold(fmt.Sprintf("%s slow gap=%v lastFirst=%v", kind, gap, lastFirst), true)
+	res.Desc = ctx
+	res.Stat(kind+":slow_messages_reassembled", 1)
+	return res
+}
+
+func TestC14QuicSlowSegments(t *testing.T) {
+	e := vrun.LoadEnv()
+	meta := vrun.Meta{Property: "C14", Workload: "TestC14QuicSlowSegments", Total: e.Pick(4, 40), Rule: "QUIC. " + ruleSlow, Assumptions: assumeTransport}
+	vrun.Loop(t, meta, 4, func(c *vrun.Case) vrun.Result { return runSlowSegments(c, newQuicPair, "quic") })
+}
+
+func TestC14WebTransportSlowSegments(t *testing.T) {
+	e := vrun.LoadEnv()
+	meta := vrun.Meta{Property: "C14", Workload: "TestC14WebTransportSlowSegments", Total: e.Pick(4, 40), Rule: "WebTransport. " + ruleSlow, Assumptions: assumeTransport}
+	vrun.Loop(t, meta, 4, func(c *vrun.Case) vrun.Result { return runSlowSegments(c, newWebTransportPair, "webtransport") })
+}
